@@ -3,6 +3,11 @@
 MBOX = ("From alice@example.com Mon Jan  1 00:00:00 2024\nSubject: first <b>msg</b> & co\n\nbody one\n\n"
         "From bob@example.com Tue Jan  2 00:00:00 2024\nSubject: second\n\nbody two\n")
 
+MBOX_DELETED = ("From a@example.com Mon Jan  1 00:00:00 2024\nSubject: m1\n\none\n\n"
+                "From b@example.com Tue Jan  2 00:00:00 2024\nSubject: m2 deleted\nStatus: RO\nX-Status: D\n\ntwo\n\n"
+                "From c@example.com Wed Jan  3 00:00:00 2024\nSubject: m3\n\nthree\n\n"
+                "From d@example.com Thu Jan  4 00:00:00 2024\nSubject: m4\nX-Status: A\n\nfour\n")
+
 HOSTILE_NAMES = ["sp ace.txt", "pct%41.txt", "q?mark.txt", "pipe|bar.txt", "hash#.txt", "amp&er.txt", "semi;colon.txt",
                  "plus+.txt", "eq=.txt", "lt<gt>.txt", "quo\"te.txt", "apos'.txt", "at@.txt", "tilde~x.txt", "col:on.txt",
                  "\xae.txt", "caf\xc3\xa9.txt", "\xe2\x82\xac.txt", "star*.txt", "br[ack].txt", "comma,.txt", "bang!.txt",
@@ -75,6 +80,23 @@ def rich_tree(rng, hostile=True, n_hostile=8, umn=True, mtime=1_700_000_000, par
             t.append({"path": "odd/" + nm, "data": "content of " + nm + "\n"})
         t.append({"path": "odd/dir with space", "kind": "dir"})
         t.append({"path": "odd/dir with space/in&side.txt", "data": "inside\n"})
+        # names the selector filter refuses: they must simply not be advertised
+        t.append({"path": "odd/notes..old.txt", "data": "dotdot in name\n"})
+        t.append({"path": "odd/sub..dir", "kind": "dir"})
+        t.append({"path": "odd/sub..dir/x.txt", "data": "x\n"})
+        t.append({"path": "odd/back.\\slash.txt", "data": "dot backslash\n"})
+        # mailboxes with messages marked deleted / trashed in the middle
+        t.append({"path": "odd/del.mbox", "data": MBOX_DELETED})
+        for sub in ("new", "cur", "tmp"):
+            t.append({"path": "odd/trash.md/" + sub, "kind": "dir"})
+        t.append({"path": "odd/trash.md/cur/1.a:2,S", "data": "Subject: kept one\n\n1\n"})
+        t.append({"path": "odd/trash.md/cur/2.b:2,ST", "data": "Subject: trashed\n\n2\n"})
+        t.append({"path": "odd/trash.md/cur/3.c:2,", "data": "Subject: kept three\n\n3\n"})
+        # a deep path of long non-ASCII names (percent-encoding triples every byte)
+        cjk = "\u6f22\u5b57\u30c6\u30b9\u30c8" * 8          # 40 characters, 120 UTF-8 bytes
+        deep = "/".join([cjk + str(i) for i in range(3)])
+        t.append({"path": ("odd/" + deep).encode("utf-8").decode("latin-1"), "kind": "dir"})
+        t.append({"path": ("odd/" + deep + "/" + cjk + ".txt").encode("utf-8").decode("latin-1"), "data": "deep\n"})
         # names that collide with in-band prefixes the protocols use
         t.append({"path": "GEMINI-QUERY.txt", "data": "not a query\n"})
         t.append({"path": "GEMINI-QUERYdir", "kind": "dir"})
